@@ -65,7 +65,11 @@ def runTopa (c : Case) : Verdict :=
   let ref := (c.bytes "ref").map upper
   let m := toPairAlign ref (c.get "rname") (c.int "start") (c.int "end") (c.int "wrap") (c.bool "omitref") (c.bool "omitins") recs
   let s := specTopa ref (c.get "rname") (c.int "start") (c.int "end") (c.int "wrap") (c.bool "omitref") (c.bool "omitins") recs
-  functional (c.get "go") (topaText m) (topaText s)
+  -- directory output: the file of a name holds the pair of the LAST block of that name in input order (since fix af2594e
+  -- the files are written in input order); each block is compared with what its file holds at the end
+  let dirView (o : Option (List (String × String))) : Option (List (String × String)) :=
+    if c.get "dirmode" == "1" then o.map fun l => l.map fun (n, t) => (n, ((l.filter (·.1 == n)).getLast?.map (·.2)).getD t) else o
+  functional (c.get "go") (topaText (dirView m)) (topaText (dirView s))
 
 end Gofasta.Driver
 
